@@ -14,6 +14,7 @@ type runStats struct {
 	Probes       map[string]int
 	Logical      map[string]int64
 	MaxStepRatio float64
+	Worst        *Scenario // the evaluation that came closest to its step budget
 	Samples      []*Scenario
 	Failures     []*Scenario
 	Outcome      uint64 // digest of the event log of the last evaluation
@@ -40,6 +41,7 @@ type workerOut struct {
 	Probes       map[string]int
 	Logical      map[string]int64
 	MaxStepRatio float64
+	Worst        *Scenario
 	Samples      []*Scenario
 	Failures     []*Scenario
 	SchedDigests []uint64
@@ -50,7 +52,7 @@ type workerOut struct {
 
 func (st *runStats) export(phase string, worker, runs int, logDigest uint64) *workerOut {
 	o := &workerOut{Phase: phase, Worker: worker, Runs: runs, Evaluations: st.Evaluations, Skipped: st.Skipped,
-		Faults: st.Faults, Probes: st.Probes, Logical: st.Logical, MaxStepRatio: st.MaxStepRatio,
+		Faults: st.Faults, Probes: st.Probes, Logical: st.Logical, MaxStepRatio: st.MaxStepRatio, Worst: st.Worst,
 		Samples: st.Samples, Failures: st.Failures, LogDigest: logDigest, SitesHit: simrt.Covered()}
 	for d := range st.Digests {
 		o.Digests = append(o.Digests, d)
